@@ -228,6 +228,31 @@ func (p c01) Gen(r *simhook.Rand, tier string, idx int) harness.Scenario {
 				at := r.Intn(150)
 				sc.Faults = append(sc.Faults, Fault{Kind: "layout", From: slot, To: slot, Dst: r.Intn(sc.Env.Masters), AfterSend: at})
 				sc.Faults = append(sc.Faults, Fault{Kind: "mig-start", From: slot, Dst: r.Intn(sc.Env.Masters), AfterSend: at + 1 + r.Intn(40)})
+				// multi-key reads whose first key lives in that slot (the child that makes the trips is not the last one),
+				// issued by the connection that owns those keys (keys are private to their connection in this profile)
+				for ci := range sc.Conns {
+					prefix := sc.Conns[ci].Name + ":"
+					var mine []string
+					ks := ""
+					for _, kv := range pre {
+						if strings.HasPrefix(string(kv.K), prefix) {
+							mine = append(mine, string(kv.K))
+							if cluster.Slot(kv.K) == slot {
+								ks = string(kv.K)
+							}
+						}
+					}
+					if ks == "" || len(mine) < 2 {
+						continue
+					}
+					for j := 0; j < 2+r.Intn(4); j++ {
+						at := r.Intn(len(sc.Conns[ci].Reqs) + 1)
+						rq := world.Request{Args: world.Bins("MGET", ks, mine[r.Intn(len(mine))])}
+						reqs := append([]world.Request(nil), sc.Conns[ci].Reqs[:at]...)
+						reqs = append(append(reqs, rq), sc.Conns[ci].Reqs[at:]...)
+						sc.Conns[ci].Reqs = reqs
+					}
+				}
 			}
 		}
 	}
